@@ -73,7 +73,7 @@ def shortcut_cases(rnd, n, prefix="PK"):
             sa.append(e[0])
             sb.append(e[1])
         a, b = ops.tensor(rnd, d, sa, "small"), ops.tensor(rnd, d, sb, "small")
-        cshape = rnd.choice(["()", "(1,)", "(1, 1)"][: r + 1])
+        cshape = rnd.choice(["()", "(1,)", "(1, 1)"][: r + 1]) if rnd.random() < 0.7 else rnd.choice(["(1,)", "(1, 1)", "(1, 1, 1)"])
         const = f"ndx.asarray(np.full({cshape}, {rnd.choice(['True', 'False'])}))"
         x, y = rnd.choice([("a", "b"), ("b", "a")])
         form = rnd.random()
@@ -89,7 +89,18 @@ def shortcut_cases(rnd, n, prefix="PK"):
         sig = lambda sh, tag: [None if rnd.random() < 0.7 else f"D{j}{tag}" for j in range(len(sh))]
         subs = [{"names": ["a", "b"], "sigs": {"a": sig(sa, "a"), "b": sig(sb, "b")}}, {"names": ["a", "b"]},
                 {"names": [rnd.choice(["a", "b"])]}]
-        out.append({"id": f"{prefix}-{i}", "inputs": {"a": a, "b": b}, "impl": impl, "oracle": None, "tol": [0, 0],
+        inputs = {"a": a, "b": b}
+        if rnd.random() < 0.3:
+            # the one-element flag is itself an input: a constant in some partitions, a placeholder in others; the
+            # result of the (possibly short-cut) operation is then updated in place and the other operand is used again
+            fv = rnd.choice([True, False])
+            inputs["f"] = {"dtype": "bool", "shape": rnd.choice([[], [1]]), "data": [fv]}
+            fn = "logical_and" if fv else "logical_or"
+            cnd = "a" if d == "bool" else "(a > 1)"
+            args = rnd.choice(["f, c_", "c_, f"])
+            impl = f"c_ = {cnd}; m_ = ndx.{fn}({args}); m_[...] = {not fv}; out = [m_, ndx.where(c_, {x}, {y})]"
+            subs = [{"names": ["f"]}, {"names": ["f", "a", "b"]}, {"names": ["a", "b"]}, {"names": ["a"]}]
+        out.append({"id": f"{prefix}-{i}", "inputs": inputs, "impl": impl, "oracle": None, "tol": [0, 0],
                     "meta": {"func": "shortcut", "dtype": d, "dclass": family.dclass(d)}, "lazy_subsets": subs})
     return out
 
